@@ -166,14 +166,14 @@ def gen_batch(rng, s):
         r = rng.random()
         if i == 0:
             req = base
-        elif r < 0.45:
+        elif r < 0.42:
             req = X.gen_request(rng, s, doc=base.doc)          # same document, other op/variables/world
-            if rng.random() < 0.4:
+            if rng.random() < 0.6:
                 # the twin of the base request: same operation, same world, only the Boolean variables flipped (what a
                 # memo of collected fields keyed by the document would get wrong)
                 req = X.Request(base.doc, base.text, base.op, {k: (not v if isinstance(v, bool) else v) for k, v in (base.variables or {}).items()},
                                 base.wseed if rng.random() < 0.5 else req.wseed, use_root=base.use_root, pass_opname=base.pass_opname)
-        elif r < 0.8:
+        elif r < 0.74:
             req = X.gen_request(rng, s, docgen.DocOpts(max_fields=rng.choice([3, 5]), max_depth=3, op_kinds=("query", "mutation"),
                                                        introspection=0.2))
             if len(req.doc.ops) == 1 and base.op.name and rng.random() < 0.5 and req.op.kind == base.op.kind:
@@ -229,6 +229,17 @@ def gen_batch(rng, s):
         for it in items:
             if it.kind == "exec" and "$" not in (it.text if isinstance(it.text, str) else ""):
                 it.mutate_args = True
+    # Boolean-flipped twins of executable requests (same text, same world, every Boolean variable negated)
+    for it in list(items):
+        if len(items) >= 7:
+            break
+        req = getattr(it, "req", None)
+        if it.kind == "exec" and req is not None and any(isinstance(v, bool) for v in (it.variables or {}).values()) and rng.random() < 0.5:
+            v2 = {k: (not v if isinstance(v, bool) else v) for k, v in it.variables.items()}
+            tw = Item(it.text, it.op_name, v2, it.wseed, dict(it.faults), it.use_root, it.root_t, "exec")
+            tw.insts = list(getattr(it, "insts", []))
+            tw.req = X.Request(req.doc, req.text, req.op, v2, req.wseed, use_root=req.use_root, pass_opname=req.pass_opname)
+            items.append(tw)
     if "vtpass" in s.directives:
         # requests of any kind (valid, invalid, broken) that the pass-through schema directive rejects: whatever the engine
         # does with the exception must stay inside that request
